@@ -229,12 +229,20 @@ def quiesce (cfg : LCfg) (envf : EnvF) (s : St) : St :=
     | _ => s
   iterN cfg envf (2 * s1.pending.length + 2) s1
 
-/-- the request inside a handler that has not returned -/
+/-- the request popped by `on_proposal` that is still waiting for its previous block -/
 def St.inflight (s : St) : List Req :=
   match s.mode with
   | .waitPrev q => [q]
+  | _ => []
+
+/-- the request whose handler will never return (its round is in `hist`, not acknowledged) -/
+def St.stuck (s : St) : List Req :=
+  match s.mode with
   | .dead (some q) => [q]
   | _ => []
+
+/-- requests that are neither acknowledged nor closed -/
+def St.unresolved (s : St) : List Req := s.stuck ++ s.inflight ++ s.pending
 
 inductive Ev where
   | arrive (q : Req)
@@ -250,7 +258,7 @@ def apply (cfg : LCfg) (s : St) : Ev → St
   | .quiesce envf => quiesce cfg envf s
   | .restart =>
     { s with r := Replica.start s.disk, pending := [], mode := .idle,
-             closed := s.closed ++ (s.inflight ++ s.pending).map (·.id) }
+             closed := s.closed ++ s.unresolved.map (·.id) }
 
 def runFrom (cfg : LCfg) (s : St) (evs : List Ev) : St := evs.foldl (apply cfg) s
 
